@@ -216,6 +216,8 @@ class TU(object):
         if out.returncode != 0 and not out.stdout:
             raise OutsideSubset("clang failed on generated source of %s: %s" % (name, out.stderr[:500]))
         self.ast = json.loads(out.stdout)
+        # front-end diagnostics: an ill-formed source still yields a (recovered) AST
+        self.errors = [l for l in out.stderr.splitlines() if " error: " in l or " fatal error: " in l]
         self.functions = {}
         self.records = {}          # id -> RecordDecl
         self.typedefs = {}
@@ -778,6 +780,8 @@ class CExec(object):
         # are reals, so 1e-2*1e-2 == 1e-4 holds exactly
         txt = None
         b = e.get("range", {}).get("begin", {})
+        if "spellingLoc" in b:          # literal produced by a macro expansion
+            b = b["spellingLoc"]
         off, ln = b.get("offset"), b.get("tokLen")
         if off is not None and ln:
             txt = self.tu.source_bytes[off:off + ln].decode("ascii", "ignore").rstrip("fFlL")
